@@ -18,6 +18,7 @@ type specEnv struct {
 	noLocals bool            // do not resolve against the unit's own locals (callee contract at call site)
 	scopePos token.Pos       // position for local-variable lookup
 	paramOld bool            // parameter names denote entry values (ensures clauses)
+	typePkg  string          // package in which type names of the clause are resolved (home of the pred / contract)
 	depth    int
 }
 
@@ -237,7 +238,7 @@ func (e *specEnv) resolveSort(ts string) (*Sort, types.Type) {
 			}
 		}
 	}
-	t := x.resolveType(ts, x.FU.Body)
+	t := x.resolveTypeIn(e.typePkg, ts)
 	return x.U.SortOf(t), t
 }
 
@@ -445,11 +446,13 @@ func (e *specEnv) index(base, idx Term) Term {
 	}
 	if base.GoT != nil {
 		if mt, ok := base.GoT.Underlying().(*types.Map); ok {
-			_, val, _, ks, vs := x.mapComps(mt)
+			dom, val, _, ks, vs := x.mapComps(mt)
 			if idx.Sort != ks && ks == SIface && idx.GoT != nil {
 				idx = x.U.Box(idx, idx.GoT)
 			}
-			r := Select(Select(x.get(e.cur, val), base), idx)
+			// Go semantics: a missing key (or a nil map) yields the zero value
+			has := And(Not(Eq(base, T("0", SInt))), Select(Select(x.get(e.cur, dom), base), idx))
+			r := Ite(has, Select(Select(x.get(e.cur, val), base), idx), x.U.Zero(vs))
 			r.Sort = vs
 			r.GoT = mt.Elem()
 			return r
@@ -534,24 +537,24 @@ func (e *specEnv) callSpec(s *SCall) Term {
 		return x.isNil(v, v.GoT)
 	case "typeis":
 		v := e.eval(s.Args[0])
-		t := x.resolveType(e.strArg(s.Args[1]), x.FU.Body)
+		t := x.resolveTypeIn(e.typePkg, e.strArg(s.Args[1]))
 		if v.Sort != SIface {
 			e.fail("typeis on non-interface")
 		}
 		return x.U.HasType(v, t)
 	case "as":
 		v := e.eval(s.Args[0])
-		t := x.resolveType(e.strArg(s.Args[1]), x.FU.Body)
+		t := x.resolveTypeIn(e.typePkg, e.strArg(s.Args[1]))
 		r := x.U.Unbox(v, t)
 		r.GoT = t
 		return r
 	case "box":
 		v := e.eval(s.Args[0])
+		if len(s.Args) > 1 {
+			return x.U.Box(v, x.resolveTypeIn(e.typePkg, e.strArg(s.Args[1])))
+		}
 		if v.GoT == nil {
 			e.fail("box of value without Go type")
-		}
-		if len(s.Args) > 1 {
-			return x.U.Box(v, x.resolveType(e.strArg(s.Args[1]), x.FU.Body))
 		}
 		return x.U.Box(v, v.GoT)
 	case "fresh":
@@ -693,19 +696,19 @@ func (e *specEnv) callSpec(s *SCall) Term {
 			args = append(args, t)
 			as = append(as, t.Sort)
 		}
-		rt := x.pureResultType(key)
+		rt := x.pureResultType(key, e.typePkg)
 		if rt == nil {
 			e.fail("pure: cannot find %s", key)
 		}
 		rs := x.U.SortOf(rt)
 		// interface receivers are boxed
 		if i := strings.LastIndex(key, "."); i > 0 && len(args) > 0 && args[0].Sort != SIface {
-			if t := x.resolveType(key[:i], x.FU.Body); types.IsInterface(t) && args[0].GoT != nil {
+			if t := x.resolveTypeIn(e.typePkg, key[:i]); types.IsInterface(t) && args[0].GoT != nil {
 				args[0] = x.U.Box(args[0], args[0].GoT)
 				as[0] = SIface
 			}
 		}
-		f := x.U.Fun(q("pure:"+key), as, rs)
+		f := x.U.Fun(q("pure:"+x.canonPure(key, e.typePkg)), as, rs)
 		r := App(f, rs, args...)
 		r.GoT = rt
 		return r
@@ -771,6 +774,7 @@ func (e *specEnv) callSpec(s *SCall) Term {
 			ne.names[p.Name] = v
 		}
 		ne.noLocals = true
+		ne.typePkg = pd.Pkg
 		return ne.eval(pd.Body)
 	}
 	e.fail("unknown spec function %s", s.Fn)
@@ -805,9 +809,9 @@ func (e *specEnv) strArg2int(s SExpr) int {
 
 var _ = ast.Inspect
 
-func (x *Unit) pureResultType(key string) types.Type {
+func (x *Unit) pureResultType(key string, pkg string) types.Type {
 	if i := strings.LastIndex(key, "."); i > 0 {
-		t := x.resolveType(key[:i], x.FU.Body)
+		t := x.resolveTypeIn(pkg, key[:i])
 		obj, _, _ := types.LookupFieldOrMethod(t, true, x.FU.Pkg.Types, key[i+1:])
 		if obj == nil {
 			obj, _, _ = types.LookupFieldOrMethod(types.NewPointer(t), true, x.FU.Pkg.Types, key[i+1:])
